@@ -128,6 +128,8 @@ type Env struct {
 	streamSeq uint64
 	StreamFn  func(env *Env, s *HStream) error
 	GateWait  time.Duration
+	plans     map[int]StreamPlan
+	slots     map[int]*StreamSlotRecord
 }
 
 // Retained is a slice handed to user code together with its digest at hand-over time.
@@ -418,3 +420,113 @@ func (e *Env) WaitStartedIDs(ids []uint64, d time.Duration) bool {
 		time.Sleep(100 * time.Microsecond)
 	}
 }
+
+// StreamPlan tells the handler of one stream slot what to do.
+type StreamPlan struct {
+	Behaviour string   // echo | pushfirst | pushonly | readonly
+	Pushes    [][]byte // messages the server writes first (pushfirst / pushonly)
+	Reads     int      // messages the server expects to read (echo / pushfirst / readonly); -1: until the stream ends
+}
+
+// StreamSlotRecord is what the handler of one slot observed.
+type StreamSlotRecord struct {
+	Started  int
+	Received [][]byte
+	Pushed   int
+	Exited   bool
+	ExitErr  string
+	WriteErr string
+	Blocked  bool // the handler is (about to be) blocked in Read
+}
+
+// SetStreamPlan installs the plan of a slot (0..3) before the stream is opened.
+func (e *Env) SetStreamPlan(slot int, p StreamPlan) {
+	e.streamMu.Lock()
+	if e.plans == nil {
+		e.plans = map[int]StreamPlan{}
+		e.slots = map[int]*StreamSlotRecord{}
+	}
+	e.plans[slot] = p
+	e.slots[slot] = &StreamSlotRecord{}
+	e.streamMu.Unlock()
+}
+
+// StreamSlot returns a copy of a slot's record.
+func (e *Env) StreamSlot(slot int) StreamSlotRecord {
+	e.streamMu.Lock()
+	defer e.streamMu.Unlock()
+	r := e.slots[slot]
+	if r == nil {
+		return StreamSlotRecord{}
+	}
+	c := *r
+	c.Received = append([][]byte(nil), r.Received...)
+	return c
+}
+
+func (e *Env) runStream(slot int, st *HStream) error {
+	e.streamMu.Lock()
+	p, ok := e.plans[slot]
+	r := e.slots[slot]
+	if ok {
+		r.Started++
+	}
+	e.streamMu.Unlock()
+	if !ok {
+		return errors.New("no plan for stream slot")
+	}
+	upd := func(f func(r *StreamSlotRecord)) {
+		e.streamMu.Lock()
+		f(r)
+		e.streamMu.Unlock()
+	}
+	exit := func(err error) error {
+		upd(func(r *StreamSlotRecord) {
+			r.Exited = true
+			if err != nil {
+				r.ExitErr = err.Error()
+			}
+		})
+		return err
+	}
+	if p.Behaviour == "pushfirst" || p.Behaviour == "pushonly" {
+		for i := range p.Pushes {
+			m := append([]byte(nil), p.Pushes[i]...)
+			if err := st.Write(&m); err != nil {
+				upd(func(r *StreamSlotRecord) { r.WriteErr = err.Error() })
+				return exit(err)
+			}
+			upd(func(r *StreamSlotRecord) { r.Pushed++ })
+		}
+	}
+	for i := 0; p.Reads < 0 || i < p.Reads || true; i++ {
+		var m []byte
+		upd(func(r *StreamSlotRecord) { r.Blocked = true })
+		err := st.Read(nil, &m)
+		upd(func(r *StreamSlotRecord) { r.Blocked = false })
+		if err != nil {
+			return exit(err)
+		}
+		upd(func(r *StreamSlotRecord) { r.Received = append(r.Received, m) })
+		if p.Behaviour == "echo" || p.Behaviour == "pushfirst" {
+			rm := Transform(m)
+			if err := st.Write(&rm); err != nil {
+				upd(func(r *StreamSlotRecord) { r.WriteErr = err.Error() })
+				return exit(err)
+			}
+		}
+	}
+	return exit(nil)
+}
+
+// Stream0..Stream3 are the stream handlers bound to plan slots.
+func (s *Svc) Stream0(st *HStream) error { return s.Env.runStream(0, st) }
+
+// Stream1 is the handler of slot 1.
+func (s *Svc) Stream1(st *HStream) error { return s.Env.runStream(1, st) }
+
+// Stream2 is the handler of slot 2.
+func (s *Svc) Stream2(st *HStream) error { return s.Env.runStream(2, st) }
+
+// Stream3 is the handler of slot 3.
+func (s *Svc) Stream3(st *HStream) error { return s.Env.runStream(3, st) }
